@@ -31,7 +31,7 @@ ASSUMPTIONS = ['ref/bind.py is the trusted reading of the statement (phase-scope
 NAMES = ('a', 'b')
 PHASES = B.PHASES
 PROVIDES_ATTR = B.PROVIDES_ATTR
-KINDS = ('func', 'lambda', 'method', 'callable', 'static', 'classm', 'decorated')
+KINDS = ('func', 'lambda', 'method', 'callable', 'static', 'classm', 'decorated', 'wrapped')
 ROLES6 = ('req', 'def', 'kwreq', 'kwdef', 'pos')
 
 
@@ -232,6 +232,33 @@ def gen_LC():
                 yield cfg
 
 
+def gen_LP():
+    """Two unique middlewares whose classes are parent and child - different types all the same: both stay in the
+    stack, so what either provides is available."""
+    for lv0, lv1 in (('app', 'route'), ('app', 'app'), ('route', 'route'), ('outer', 'app'), ('outer', 'route')):
+        for ph in PHASES:
+            for child_first in (False, True):
+                for provider in (0, 1):
+                    for role in ('req', 'def'):
+                        cfg = empty_cfg()
+                        a = {'level': lv0, 'type': 'A', ph: fspec([])}
+                        b = {'level': lv1, 'type': 'As', 'parent': 'A', ph: fspec([])}
+                        mws = [b, a] if child_first else [a, b]
+                        mws[0]['level'], mws[1]['level'] = lv0, lv1
+                        mws[provider][PROVIDES_ATTR[ph]] = ['a']
+                        cfg['mws'] = mws
+                        if ph == 'render':
+                            cfg['endpoint'] = fspec([])
+                            cfg['render'] = fspec([('a', role)], [('context', 'req')])
+                        else:
+                            cfg['endpoint'] = fspec([('a', role)])
+                            cfg['render'] = None
+                        if 'outer' in (lv0, lv1):
+                            cfg['embedded'] = True
+                            cfg['outer_res'] = []
+                        yield cfg
+
+
 def gen_LS():
     """Strict slash mode, a leaf pattern made only of an optional binding: '/' is the empty assignment and the
     binding is then supplied as None."""
@@ -262,11 +289,11 @@ def layers(tier):
     if tier == 'quick':
         return [('L1a-0', lambda: gen_L1a(0, False)), ('L1a-1', lambda: gen_L1a(1, False)),
                 ('L1a-2r', lambda: gen_L1a(2, True)), ('L1c', gen_L1c), ('L2-1', lambda: gen_L2(1)),
-                ('LB', gen_LB), ('LC', gen_LC), ('LE-1', lambda: gen_LE(1)), ('LS', gen_LS)]
+                ('LB', gen_LB), ('LC', gen_LC), ('LE-1', lambda: gen_LE(1)), ('LS', gen_LS), ('LP', gen_LP)]
     return [('L1a-0', lambda: gen_L1a(0, False)), ('L1a-1', lambda: gen_L1a(1, False)),
             ('L1a-2', lambda: gen_L1a(2, False)), ('L1b-3', lambda: gen_L1b(3)), ('L1b-4', lambda: gen_L1b(4)),
             ('L1c', gen_L1c), ('L2-1', lambda: gen_L2(1)), ('L2-2', lambda: gen_L2(2)), ('LB', gen_LB), ('LC', gen_LC),
-            ('LE-1', lambda: gen_LE(1)), ('LE-2', lambda: gen_LE(2)), ('LS', gen_LS)]
+            ('LE-1', lambda: gen_LE(1)), ('LE-2', lambda: gen_LE(2)), ('LS', gen_LS), ('LP', gen_LP)]
 
 
 def cfg_roles(cfg):
